@@ -103,6 +103,8 @@ type World struct {
 	// MaxCallMs is the slowest API call seen.
 	MaxCallMs float64
 	TextGen   func(id int) []byte
+	// TextBase is added to the text ids of Send steps (6000: texts that begin like a query message)
+	TextBase int
 	// Hook is called after each event with the event record (monitors).
 	Hook func(ev M, p *Party)
 	// KeepRaw makes events carry the raw bytes (hex) of inputs and outputs.
@@ -138,7 +140,14 @@ func New(seed uint64, trace io.Writer) *World {
 		_, rk := DSAKey(n)
 		w.Reg.AddDSA(n, rk.Pub())
 	}
-	w.TextGen = func(id int) []byte { return []byte(fmt.Sprintf("text-%d-%x", id, seed&0xffff)) }
+	w.TextGen = func(id int) []byte {
+		core := fmt.Sprintf("text-%d-%x", id, seed&0xffff)
+		if id >= 6000 && id < 7000 {
+			// texts a user might type by hand that begin like a query message
+			return []byte([]string{"?OTRv3? ", "?OTRv23? ", "?OTR?v2? ", "?OTRv2?", "?OTR? "}[id%5] + core)
+		}
+		return []byte(core)
+	}
 	return w
 }
 
@@ -589,6 +598,7 @@ func (w *World) Flush() {
 
 // Send passes text id to p.Send.
 func (w *World) Send(p *Party, text int) M {
+	text += w.TextBase
 	b := w.Text(text)
 	var out []otr3.ValidMessage
 	var err error
